@@ -58,6 +58,7 @@ type C27List struct {
 	Utxo      bool      `json:"utxo,omitempty"`  // first spender also spends one particular output
 	TimeRange int       `json:"time_range,omitempty"`
 	SkipKey   int       `json:"skip_key,omitempty"` // multisig: 1-3 = that root key does not sign
+	TwoStep   bool      `json:"two_step,omitempty"` // build in two calls: the second half of the actions is added onto the first call's transaction (Build's base transaction)
 }
 
 // C27Plan is the plan of C27.
@@ -79,6 +80,7 @@ func genC27(rt *rapid.T) any {
 		l := C27List{Frac: rapid.SampledFrom([]int{3, 1, 5, 7, 9, 9, 10, 11}).Draw(rt, "frac"), Fee: rapid.IntRange(0, 2).Draw(rt, "fee"),
 			Merge: rapid.Bool().Draw(rt, "merge"), Utxo: rapid.IntRange(0, 3).Draw(rt, "utxoq") == 3,
 			TimeRange: rapid.SampledFrom([]int{0, 0, 3, 50}).Draw(rt, "timerange"), SkipKey: rapid.IntRange(0, 3).Draw(rt, "skipkey")}
+		l.TwoStep = rapid.IntRange(0, 2).Draw(rt, "twostep") == 2
 		for j, m := 0, rapid.IntRange(1, 3).Draw(rt, "nspend"); j < m; j++ {
 			l.Spenders = append(l.Spenders, rapid.IntRange(0, 2).Draw(rt, "spender"))
 		}
@@ -454,7 +456,24 @@ func (s *c27sim) runList(li int, l C27List) {
 		timeRange = best + uint64(l.TimeRange)
 	}
 	maxTime := time.Now().Add(60 * time.Second)
-	tpl, err := txbuilder.Build(context.Background(), nil, actions, maxTime, timeRange)
+	var tpl *txbuilder.Template
+	var err error
+	if l.TwoStep && len(actions) >= 2 {
+		// two parties (or one caller in two requests): the first half is built alone, the second half is added
+		// onto that transaction as Build's base; the signing instructions of both calls together are the
+		// template of the final transaction
+		k := len(actions) / 2
+		var first *txbuilder.Template
+		if first, err = txbuilder.Build(context.Background(), nil, actions[:k], maxTime, timeRange); err == nil {
+			base := first.Transaction.TxData
+			if tpl, err = txbuilder.Build(context.Background(), &base, actions[k:], maxTime, timeRange); err == nil {
+				tpl.SigningInstructions = append(append([]*txbuilder.SigningInstruction{}, first.SigningInstructions...), tpl.SigningInstructions...)
+				r.Count("lists.two_step_builds", 1)
+			}
+		}
+	} else {
+		tpl, err = txbuilder.Build(context.Background(), nil, actions, maxTime, timeRange)
+	}
 	r.Tracef("%s: %v frac=%d merge=%v -> built=%v mustFail=%v mustWork=%v", ctx, order, l.Frac, l.Merge, err == nil, mustFail, mustWork)
 	if err != nil {
 		// more than the account owns: insufficient; within what it owns but beyond what is mature: immature
@@ -825,7 +844,7 @@ func execC27(t *testing.T, plan any, r *simkit.Run) {
 func SpecC27() simkit.Spec {
 	return simkit.Spec{
 		Prop: "C27", Gen: genC27, NewPlan: func() any { return &C27Plan{} }, Exec: execC27,
-		Rule: "a wallet node with three accounts (single key, 2-of-3 multisig, single key) mines until epoch rewards mature, splits them into a drawn UTXO set over all its programs, then runs 2-6 drawn action lists: 1-3 spend_account actions over 1-3 accounts (optionally merged as the RPC layer does, optionally one spend_account_unspent_output), a second asset issued through asset.Registry or spent from an earlier list, 1-4 receivers (control_address, control_program, retire) with weighted amounts, spending 10-90% of the usable funds (several inputs and change) or more than the account owns, time ranges, one multisig key withheld; each list goes through txbuilder.Build, txbuilder.Sign, the FinalizeTx steps, Chain.ValidateTx, the real proposer and a peer node; " +
+		Rule: "a wallet node with three accounts (single key, 2-of-3 multisig, single key) mines until epoch rewards mature, splits them into a drawn UTXO set over all its programs, then runs 2-6 drawn action lists: 1-3 spend_account actions over 1-3 accounts (optionally merged as the RPC layer does, optionally one spend_account_unspent_output), a second asset issued through asset.Registry or spent from an earlier list, 1-4 receivers (control_address, control_program, retire) with weighted amounts, spending 10-90% of the usable funds (several inputs and change) or more than the account owns, time ranges, one multisig key withheld, a third of the lists built in two Build calls (the second onto the first as base transaction, signing instructions joined); each list goes through txbuilder.Build, txbuilder.Sign, the FinalizeTx steps, Chain.ValidateTx, the real proposer and a peer node; " +
 			"oracle on the transaction re-parsed from its bytes: inputs spend main-chain outputs of exactly the asked accounts (or are the asked issuance), one output per receiver with exactly its asset/program/amount, every other output is change to a program of a spending account and equals inputs minus request per account and asset, fee = BTM in - BTM out in math/big = TxData.Fee() = template fee = what the actions leave; a list asking an account for more than it owns must fail with an insufficient-funds class error, a list within the usable funds must build, pass the mempool, be mined and the block accepted by the peer; non-trivial = at least one list mined; distinct = hash of the trace",
 		Components: walletComponents,
 		Probes:     []string{"lists.built", "lists.mined", "lists.refused_insufficient", "lists.with_issue", "probe.several_inputs_per_spend"},
